@@ -74,6 +74,31 @@ def clip (lo hi x : Rat) : Rat := if x < lo then lo else if hi < x then hi else 
     the surplus: a shorter table - `none`) -/
 def sameLen (d v : List Rat) : Option (List Rat) := if v.length = d.length then some v else none
 
+/-- `np.zeros((M.shape[0], 1))`: a column of zeros with one entry per row of `M` -/
+def zeroCol (m : Mat) : Mat := { ncols := 1, rows := m.rows.map fun _ => [0] }
+
+/-- the loop `for i in range(A.shape[0]): R[i] = np.max(A[i])` on a one-column `R` with as many rows as `A`: row `i` of `R` becomes the
+    maximum of row `i` of `A` (ValueError for an empty row: `none`) -/
+def rowMaxCol (r a : Mat) : Option Mat :=
+  if r.ncols = 1 ∧ r.rows.length = a.rows.length ∧ a.rows.all (fun row => !row.isEmpty) then
+    some { ncols := 1, rows := a.rows.map fun row => match row with | [] => [0] | x :: xs => [xs.foldl max x] }
+  else none
+
+/-- `M - C` for a one-column `C` with as many rows as `M` (broadcast along the rows) -/
+def subCol (m c : Mat) : Option Mat :=
+  if c.ncols = 1 ∧ c.rows.length = m.rows.length then
+    some { ncols := m.ncols, rows := List.zipWith (fun row cr => row.map fun a => a - cr.headD 0) m.rows c.rows }
+  else none
+
+/-- the loop `for j in range(v.shape[0]): if v[j] == 0: v[j] = 1` -/
+def zeroToOne (v : List Rat) : List Rat := v.map fun a => if a = 0 then 1 else a
+
+/-- `(M.T / v).T`: row `i` of `M` divided by `v[i]` (`len(v)` = number of rows) -/
+def divRows (m : Mat) (v : List Rat) : Option Mat :=
+  if v.length = m.rows.length then
+    some { ncols := m.ncols, rows := List.zipWith (fun row d => row.map fun a => a / d) m.rows v }
+  else none
+
 /-- `keys[index]` for an index array: every index must be in range (IndexError otherwise: `none`) -/
 def gatherN (keys idx : List Nat) : Option (List Nat) :=
   if idx.all (fun i => decide (i < keys.length)) then some (idx.map fun i => keys.getD i 0) else none
